@@ -137,6 +137,14 @@ func gen(h *lp.H, do func(string) string) {
 						h.Violate("the response of a cancelled request was delivered to somebody: " + out)
 					}
 					do("sync")
+					// ... and so must retransmissions of that late response (the abandoned mailbox is full by now)
+					for k := rng.Intn(3); k > 0; k-- {
+						if out := do(fmt.Sprintf("resp %d %s 3 3", p.id, respOf[p.kind])); out != "nobody" {
+							h.Violate("a repeated response of a cancelled request was delivered to somebody: " + out)
+						}
+						do("sync")
+						sig += "d"
+					}
 				}
 				answered = append(answered, p.id)
 				sig += "c"
@@ -290,6 +298,16 @@ func gen(h *lp.H, do func(string) string) {
 		if h.Distinct("route/" + sig) {
 			h.Sample()
 		}
+	}
+
+	// ---- C0. ids over several keepalive periods of one connection
+	for c := 0; c < 2+h.N/60; c++ {
+		h.Case(fmt.Sprintf("pingids %d", c))
+		n := 3 + rng.Intn(6)
+		if out := do(fmt.Sprintf("pingids %d", n)); out != "pingids ok" {
+			h.Violate("request ids on one connection are not distinct and even over several keepalive pings: " + out)
+		}
+		h.Distinct(fmt.Sprintf("pingids/%d", n))
 	}
 
 	// ---- C. a wrong-typed response to the keepalive ping must not kill the process
